@@ -37,6 +37,8 @@ def run_history(ctx, res, rng, hid):
             if ls[i].startswith(("  ", "- ", "o ", "x ")) and ls[i].strip() and ls[i + 1].startswith("  ") and ls[i + 1].strip() and rng.random() < 0.3:
                 ls[i] += " " * rng.randint(1, 2)
         files[rel] = "\n".join(ls)
+    if rng.random() < 0.5:
+        files = G.add_exotic_chars(rng, files)
     G.write_dir(zdir, files)
     w = H.World(ctx, rng, zdir, cfg)
     if w.run("db", "create") != 0:
